@@ -94,8 +94,16 @@ pub const TASK_PANIC_MSG: &str = "VERIF-TASK-PANIC";
 pub const CRASH_MSG: &str = "VERIF-INJECTED-CRASH";
 pub const RECURSION_MSG: &str = "VERIF-RECURSION-BOUND";
 
+/// A single build step never produces anywhere near this many events in the explored space (tens to hundreds): beyond
+/// it the build is not terminating, and the harness stops it instead of letting the log eat the machine's memory.
+pub const RUNAWAY_MSG: &str = "VERIF-RUNAWAY-BOUND";
+pub const RUNAWAY_EVENTS: usize = 200_000;
+
 #[inline]
-pub fn log(ev: Ev) { LOG.with(|l| l.borrow_mut().push(ev)); }
+pub fn log(ev: Ev) {
+  let n = LOG.with(|l| { let mut l = l.borrow_mut(); l.push(ev); l.len() });
+  if n == RUNAWAY_EVENTS { panic!("{}", RUNAWAY_MSG); }
+}
 pub fn take_log() -> Vec<Ev> { LOG.with(|l| std::mem::take(&mut *l.borrow_mut())) }
 pub fn set_program(p: Option<Prog>) { PROGRAM.with(|c| *c.borrow_mut() = p); }
 pub fn reset_ticks(crash_at: Option<usize>) {
